@@ -75,8 +75,8 @@ def generate(streams: core.Streams, tier: str) -> dict:
         victim["detection"]["condition"] = f"{first} not {first}"  # syntax error reported at conversion
         kinds.add("condition_syntax_error")
     # filters, some with detection names starting with digit / underscore
-    for i in range(w.choice([0, 0, 1, 1, 2])):
-        names = w.sample(["selection", "flt", "sel_2", "1st", "_under", "x-y"], 2)
+    for i in range(w.choice([0, 0, 1, 1, 2, 2])):
+        names = w.sample(["selection", "flt", "sel_2", "1st", "_under", "x-y", "exclude_a", "exclude_b"], 2)
         rules_only = [d for d in docs if "detection" in d and "title" in d]
         target = "any" if gen.chance(w, 0.6) else [gen.pick(w, rules_only)["name"]]
         ls = copy.deepcopy(gen.pick(w, rules_only)["logsource"])
@@ -148,6 +148,10 @@ def generate(streams: core.Streams, tier: str) -> dict:
             victim["detection"]["condition"] = f"{first} or _cond_{draw}"
         kinds.add("forced_prefix_collision")
         forced = [draw] * 12
+    n_filters = sum(1 for d in docs if "filter" in d)
+    if not forced and n_filters >= 2 and gen.chance(f, 0.6):
+        forced = ["zzzzzzzzzz"] * 12  # every filter application draws the same prefix first
+        kinds.add("forced_equal_draws_for_two_filters")
     m = s.randint(4, 6)
     hashseeds = [0, 1] + [s.randrange(2, 2**32 - 1) for _ in range(m - 2)]
     configs = []
